@@ -62,7 +62,7 @@ fn any_list() -> RuleList { let l = RuleList { items: kani::any(), len: kani::an
 fn post_rules_all_or_nothing() {
     let old = any_list(); let posted = any_list();
     unsafe { CURRENT = old; SET_OK = kani::any(); }
-    let r = kani::block_on(post_rules(Extension(Arc(GlobalState(0))), Json(posted)));
+    let r = run_ready(post_rules(Extension(Arc(GlobalState(0))), Json(posted)));
     unsafe {
         // every POST is handed to set_rules, exactly once, with exactly the posted list (also the empty one)
         assert!(SET_CALLS == 1 && SET_ARG.same(&posted));
@@ -83,11 +83,17 @@ fn post_rules_all_or_nothing() {
 fn get_rules_is_current_list() {
     let cur = any_list();
     unsafe { CURRENT = cur; }
-    let resp = kani::block_on(get_rules(Extension(Arc(GlobalState(0)))));
+    let resp = run_ready(get_rules(Extension(Arc(GlobalState(0)))));
     unsafe {
         // GET returns the list in force, in order (so that posting it back is the identity), and changes nothing
         assert!(resp.body().same(&cur) && CURRENT.same(&cur) && SET_CALLS == 0);
         kani::cover!(cur.len == 2 && cur.items[0] != cur.items[1]);
     }
+}
+/// every stub future is immediately ready, so the task completes within one poll (cheaper than kani::block_on's loop)
+pub fn run_ready<F: std::future::Future>(f: F) -> F::Output {
+    let mut f = std::pin::pin!(f);
+    let mut cx = std::task::Context::from_waker(std::task::Waker::noop());
+    match f.as_mut().poll(&mut cx) { std::task::Poll::Ready(v) => v, std::task::Poll::Pending => panic!("stub future pending") }
 }
 fn main() {}
